@@ -13,6 +13,8 @@ pub struct C03 {
     pub max_ticks: usize,
     pub max_drops: usize,
     pub max_force: usize,
+    /// explorer time grid (ms): 10, or 1010 for the seconds-range configuration
+    pub grid: u64,
 }
 
 /// One poll of an async view of the breaker: None if it would have to wait - the circuit
@@ -62,6 +64,9 @@ impl Scenario for C03 {
     }
     fn callers(&self) -> usize {
         self.callers
+    }
+    fn grid_ms(&self) -> u64 {
+        self.grid
     }
     fn init(&self, w: &mut World) -> X {
         let (svc, tl, gate) = build_full(&self.cfg, w.inner.clone(), w.origin, None);
